@@ -6,6 +6,7 @@ import (
 	"os"
 	"sort"
 	"strconv"
+	"strings"
 	"time"
 
 	mhub2types "github.com/MinterTeam/mhub2/module/x/mhub2/types"
@@ -174,6 +175,23 @@ func (w *World) T() *Tracker {
 // TokenOf finds the configured token of an external id on a chain (by the CURRENT hub token infos the
 // configuration started with; governance changes are not generated for these oracles).
 func (w *World) TokenOf(chain, extID string) *TokenCfg { return w.Cfg.TokenByExt(chain, extID) }
+
+// TokenOfContract identifies a token by the contract it names, whatever the spelling of the address (governance
+// may have re-listed the same contract in another letter case while transfers of it were pending).
+func (w *World) TokenOfContract(chain, extID string) *TokenCfg {
+	if t := w.Cfg.TokenByExt(chain, extID); t != nil {
+		return t
+	}
+	if !strings.HasPrefix(extID, "0x") {
+		return nil
+	}
+	for i := range w.Cfg.Tokens {
+		if w.Cfg.Tokens[i].Chain == chain && strings.EqualFold(w.Cfg.Tokens[i].ExtID, extID) {
+			return &w.Cfg.Tokens[i]
+		}
+	}
+	return nil
+}
 
 // HubUnitsOf converts an external amount of a token into exact hub units.
 func (w *World) HubUnitsOf(chain, extID string, v sdk.Int) (denom string, r interface{ String() string }, ok bool) {
